@@ -19,5 +19,6 @@ if [ -n "$(git diff --name-only --diff-filter=U)" ]; then echo "UNRESOLVED CONFL
 git commit -qm "merge $G ($REF)" 2>/dev/null || true
 python3 tools/tagfiles.py
 ./check manifest
+git add MANIFEST.json && git commit -qm "manifest after merging $G" 2>/dev/null || true
 python3 tools/fixhashes.py | tail -3
 git -C /repo status --short
